@@ -649,6 +649,8 @@ static int _upipe_xfer_mgr_attach(struct upipe_mgr *mgr,
 static inline int _upipe_xfer_mgr_freeze(struct upipe_mgr *mgr)
 {
     struct upipe_xfer_mgr *xfer_mgr = upipe_xfer_mgr_from_upipe_mgr(mgr);
+    if (unlikely(xfer_mgr->mutex == NULL))
+        return UBASE_ERR_INVALID;
     upipe_mgr_use(mgr);
     return umutex_lock(xfer_mgr->mutex);
 }
